@@ -444,6 +444,67 @@ theorem authorize_response_only_if (cfg : Cfg) (w w' : World) (now : Nat) (r : A
       AuthEffect cfg w w' now r state session n d out :=
   authorizeResponse_ok cfg w w' now r out hchk hwf h
 
+/-- **one presentation, one acceptance.** After an authorization response has been accepted, a second post carrying
+    the same nonce is refused (the nonce is gone; the fresh nonce of a next leg has another name). -/
+theorem authresp_nonce_at_most_once (cfg : Cfg) (w w₁ : World) (t t' : Nat) (r r' : AuthResp) (out : AuthOut)
+    (hchk : cfg.emptyVpChecked = true) (hwf : ∀ vp ∈ r.vps, vp.signer ≠ some "") (hwf' : ∀ vp ∈ r'.vps, vp.signer ≠ some "")
+    (hfresh : ∀ vp ∈ r.vps, vpChallenge vp ≠ nonceName w.nextNonce)
+    (h : authorizeResponse cfg w t r = (w₁, .ok out))
+    (hsame : ∀ vp' ∈ r'.vps, ∃ vp ∈ r.vps, vpChallenge vp' = vpChallenge vp) :
+    ∀ out', (authorizeResponse cfg w₁ t' r').2 ≠ .ok out' := by
+  intro out' hok
+  obtain ⟨state, session, n, s, d, hc, heff⟩ := authorizeResponse_ok cfg w w₁ t r out hchk hwf h
+  have h' : authorizeResponse cfg w₁ t' r' = ((authorizeResponse cfg w₁ t' r').1, .ok out') := by rw [← hok]
+  obtain ⟨state', session', n', s', d', hc', _⟩ := authorizeResponse_ok cfg w₁ _ t' r' out' hchk hwf' h'
+  -- the second post presents the same nonce
+  obtain ⟨vp', hvp'⟩ := List.exists_mem_of_ne_nil _ hc'.wellformed.2.2.1
+  obtain ⟨vp, hvp, heq⟩ := hsame vp' hvp'
+  have hn : n' = n := by rw [← hc'.challenge.2 vp' hvp', heq, hc.challenge.2 vp hvp]
+  have hne : n ≠ nonceName w.nextNonce := by rw [← hc.challenge.2 vp hvp]; exact hfresh vp hvp
+  have hbound := hc'.bound
+  rw [hn] at hbound
+  cases heff with
+  | code _ hw =>
+    rw [hw] at hbound
+    simp only at hbound
+    rw [Store.get_del_same] at hbound
+    cases hbound
+  | next owner _ hw =>
+    rw [hw] at hbound
+    simp only at hbound
+    rw [Store.get_put_ne _ _ _ _ _ _ _ (fun e => hne e.symm), Store.get_del_same] at hbound
+    cases hbound
+
+/-- hence two overlapping posts of one response (any interleaving of atomic store steps = one of the two serial
+    orders) yield at most one code -/
+theorem race_at_most_one_accepted (cfg : Cfg) (w : World) (t : Nat) (r : AuthResp) (firstIsA : Bool)
+    (hchk : cfg.emptyVpChecked = true) (hwf : ∀ vp ∈ r.vps, vp.signer ≠ some "")
+    (hfresh : ∀ vp ∈ r.vps, vpChallenge vp ≠ nonceName w.nextNonce) :
+    ¬ ((raceAuthorize cfg w t r firstIsA).2.1.isOk = true ∧ (raceAuthorize cfg w t r firstIsA).2.2.isOk = true) := by
+  intro ⟨ha, hb⟩
+  unfold raceAuthorize at ha hb
+  simp only at ha hb
+  cases h1 : authorizeResponse cfg w t r with
+  | mk w1 o1 =>
+    cases h2 : authorizeResponse cfg w1 t r with
+    | mk w2 o2 =>
+      rw [h1] at ha hb
+      simp only [h2] at ha hb
+      have hboth : o1.isOk = true ∧ o2.isOk = true := by
+        cases firstIsA <;> simp_all
+      cases o1 with
+      | ok out1 =>
+        cases o2 with
+        | ok out2 =>
+          have := authresp_nonce_at_most_once cfg w w1 t t r r out1 hchk hwf hwf hfresh h1
+            (fun vp' hvp' => ⟨vp', hvp', rfl⟩) out2
+          rw [h2] at this
+          exact this rfl
+        | err e => simp [Res.isOk] at hboth
+        | panic p => simp [Res.isOk] at hboth
+      | err e => simp [Res.isOk] at hboth
+      | panic p => simp [Res.isOk] at hboth
+
 /-- **token_only_if (authorization_code grant).** A 200 implies: the code is in the code store (so an accepted
     authorize response put it there, see `authorize_response_only_if`), the client id equals the one of the
     authorization request, the challenge method is S256 and `S256(code_verifier)` equals the stored challenge;
